@@ -17,22 +17,35 @@ Proof. exists [SB 0 true [OUnary] []], (repeat (Thr 0) 9). vm_compute. auto. Qed
 (* a unary call interrupted by a raising on_log: the worker goes back to the pool with an unread response *)
 Lemma C32_dirty_reuse_unary_refuted :
   exists specs sch, dirty_reuse (run cfg_old 2 3 (init specs) sch) = true.
-Proof. exists [SB 0 true [OUnary] [0]; SB 0 true [OUnary] []], (seq2 10 10). vm_compute. reflexivity. Qed.
+Proof. exists [SB 0 true [OUnary] [(0, XPlain)]; SB 0 true [OUnary] []], (seq2 10 10). vm_compute. reflexivity. Qed.
 
 (* tick interrupted, then the close-drain of the managed session interrupted: _closed is True, the output is not drained *)
 Lemma C32_dirty_reuse_stream_close_refuted :
   exists specs sch, dirty_reuse (run cfg_old 2 3 (init specs) sch) = true.
-Proof. exists [SB 0 true [OOpen true; OTick] [2; 3]; SB 0 true [OUnary] []], (seq2 11 10). vm_compute. reflexivity. Qed.
+Proof. exists [SB 0 true [OOpen true; OTick] [(2, XPlain); (3, XPlain)]; SB 0 true [OUnary] []], (seq2 11 10). vm_compute. reflexivity. Qed.
 
 (* second stream of a borrow: init interrupted, _last_stream_session still points at the first, cleanly closed one *)
 Lemma C32_dirty_reuse_second_stream_refuted :
   exists specs sch, dirty_reuse (run cfg_old 2 3 (init specs) sch) = true.
-Proof. exists [SB 0 true [OOpen true; OClose; OOpen true; OTick] [2]; SB 0 true [OUnary] []], (seq2 13 10). vm_compute. reflexivity. Qed.
+Proof. exists [SB 0 true [OOpen true; OClose; OOpen true; OTick] [(2, XPlain)]; SB 0 true [OUnary] []], (seq2 13 10). vm_compute. reflexivity. Qed.
+
+(* After the taint repair (cfg_marking: _call_in_flight and _drained exist, but _drained = True is set after the drain
+   loop however it ended): an on_log raising an exception the drain's suppress() list swallows -- RpcError, OSError,
+   pa.ArrowInvalid -- cuts the drain short silently, and the worker is pooled with the end-of-stream marker unread. *)
+Lemma C32_dirty_reuse_cancel_drain_refuted :
+  exists specs sch, dirty_reuse (run cfg_marking 2 3 (init specs) sch) = true.
+Proof. exists [SB 0 true [OOpen false; OTick; OCancel] [(4, XRpc)]; SB 0 true [OUnary] []], (seq2 12 10). vm_compute. reflexivity. Qed.
+
+Lemma C32_dirty_reuse_close_drain_swallowed_refuted :
+  exists specs sch, dirty_reuse (run cfg_marking 2 3 (init specs) sch) = true.
+Proof. exists [SB 0 true [OOpen true; OTick] [(2, XPlain); (3, XOs)]; SB 0 true [OUnary] []], (seq2 11 10). vm_compute. reflexivity. Qed.
 
 (* the same schedules under the repaired configuration do not reuse the worker *)
 Lemma C32_fixed_on_witnesses :
   idle_total (g_idle (fst (run cfg_fixed 0 3 (init [SB 0 true [OUnary] []]) (repeat (Thr 0) 9)))) = 0 /\
-  dirty_reuse (run cfg_fixed 2 3 (init [SB 0 true [OUnary] [0]; SB 0 true [OUnary] []]) (seq2 10 10)) = false /\
-  dirty_reuse (run cfg_fixed 2 3 (init [SB 0 true [OOpen true; OTick] [2; 3]; SB 0 true [OUnary] []]) (seq2 11 10)) = false /\
-  dirty_reuse (run cfg_fixed 2 3 (init [SB 0 true [OOpen true; OClose; OOpen true; OTick] [2]; SB 0 true [OUnary] []]) (seq2 13 10)) = false.
-Proof. vm_compute. auto. Qed.
+  dirty_reuse (run cfg_fixed 2 3 (init [SB 0 true [OUnary] [(0, XPlain)]; SB 0 true [OUnary] []]) (seq2 10 10)) = false /\
+  dirty_reuse (run cfg_fixed 2 3 (init [SB 0 true [OOpen true; OTick] [(2, XPlain); (3, XPlain)]; SB 0 true [OUnary] []]) (seq2 11 10)) = false /\
+  dirty_reuse (run cfg_fixed 2 3 (init [SB 0 true [OOpen true; OClose; OOpen true; OTick] [(2, XPlain)]; SB 0 true [OUnary] []]) (seq2 13 10)) = false /\
+  dirty_reuse (run cfg_fixed 2 3 (init [SB 0 true [OOpen false; OTick; OCancel] [(4, XRpc)]; SB 0 true [OUnary] []]) (seq2 12 10)) = false /\
+  dirty_reuse (run cfg_fixed 2 3 (init [SB 0 true [OOpen true; OTick] [(2, XPlain); (3, XOs)]; SB 0 true [OUnary] []]) (seq2 11 10)) = false.
+Proof. vm_compute. repeat split; reflexivity. Qed.
